@@ -2639,7 +2639,14 @@ def rule_struct_values_not_shared(repo):
     return rule_init(repo)
 
 
-RULES = [rule_drivers_detected_everywhere, rule_struct_values_not_shared, rule_scc_template, rule_net_blocks_scheduled, rule_symmetric, rule_const, rule_nodes, rule_flood, rule_seed, rule_unique, rule_propagate, rule_residence, rule_netblock, rule_overlap,
+def rule_nets_told_apart_in_the_dump(repo):
+    """what the nets carried is observed through the VCD dump, one identifier per net: in a large design (more than 94*94 nets)
+    the identifiers must stay distinct, or two unrelated nets are recorded under one name -- decided by C16 (R-C16-symbols)"""
+    from rules.c16 import rule_symbols
+    return rule_symbols(repo)
+
+
+RULES = [rule_nets_told_apart_in_the_dump, rule_drivers_detected_everywhere, rule_struct_values_not_shared, rule_scc_template, rule_net_blocks_scheduled, rule_symmetric, rule_const, rule_nodes, rule_flood, rule_seed, rule_unique, rule_propagate, rule_residence, rule_netblock, rule_overlap,
          rule_pending_flag, rule_ancestors, rule_collectors, rule_ifc_symmetric, rule_net_ordering, rule_writer_via_helpers,
          rule_names_denote_storage, rule_replace_keeps_nets, rule_replace_filters, rule_byname, rule_nets_readonly, rule_scc_watch, rule_tick_settles, rule_const_value_fits, rule_replace_registers_slices, rule_index_names, rule_late_signals_registered]
 
